@@ -34,6 +34,7 @@ def parseVal (s : String) : Option Val :=
     | ["f", q] => (parseRat q).map Val.num
     | ["i", i] => i.toInt?.map Val.int
     | ["s", v] => some (.str v)
+    | ["o", v] => some (.obj v)
     | ["b", b] => some (.bool (b = "1"))
     | _ => none
 
@@ -44,6 +45,7 @@ def showVal : Val → String
   | .str s => s!"s:{s}"
   | .bool b => if b then "b:1" else "b:0"
   | .none => "N"
+  | .obj k => s!"o:{k}"
   | .app f a => s!"@{f}@{showVal a}"
 
 def showVals (vs : List Val) : String := ",".intercalate (vs.map showVal)
